@@ -32,6 +32,7 @@ class Context:
         self.tokens = 0
         self.counters = {}
         self.snap = False       # snapshot whole state at invocations
+        self.keep = []          # keeps observed instances alive (stable ids)
         CTX[self.run_id] = self
 
     def now(self):
@@ -55,6 +56,7 @@ class Context:
     def close(self):
         CTX.pop(self.run_id, None)
         self.engine = None
+        self.keep = []
 
 
 def ctx_of(run_id):
@@ -108,7 +110,7 @@ class RecProcess(Process):
     """
     defaults = {'run_id': 0, 'ts': [1.0], 'ts_mode': 'invocation',
                 'cond': None, 'shared': ['sum'], 'emit': True,
-                'meta': False, 'salt': 0, 'port_order': None}
+                'meta': False, 'salt': 0, 'port_order': None, 'record': True}
 
     def __init__(self, parameters=None):
         super().__init__(parameters)
@@ -119,9 +121,10 @@ class RecProcess(Process):
     def ports_schema(self):
         rid = self.parameters['run_id']
         emit = self.parameters['emit']
-        own = {'acc': {
-            '_default': 0, '_emit': emit,
-            '_updater': recording_updater(rid, 'own:' + self.name)}}
+        record = self.parameters['record']
+        own = {'acc': {'_default': 0, '_emit': emit}}
+        if record:
+            own['acc']['_updater'] = recording_updater(rid, 'own:' + self.name)
         if self.parameters['meta']:
             own['last'] = {'_default': 0, '_emit': emit, '_updater': 'set'}
         shared_names = list(self.parameters['shared'])
@@ -129,10 +132,10 @@ class RecProcess(Process):
         if order == 'reversed':
             shared_names.reverse()
             own = dict(reversed(list(own.items())))
-        shared = {
-            v: {'_default': 0, '_emit': emit,
-                '_updater': recording_updater(rid, 'shared:' + v)}
-            for v in shared_names}
+        shared = {v: {'_default': 0, '_emit': emit} for v in shared_names}
+        if record:
+            for v in shared_names:
+                shared[v]['_updater'] = recording_updater(rid, 'shared:' + v)
         if order == 'reversed':
             return {'shared': shared, 'own': own}
         return {'own': own, 'shared': shared}
@@ -190,16 +193,20 @@ class RecStep(Step):
     """Bystander / observing step: reads the shared variables, writes one token
     per run to its own variable."""
     defaults = {'run_id': 0, 'shared': ['sum'], 'emit': True, 'meta': False,
-                'salt': 0}
+                'salt': 0, 'record': True}
 
     def ports_schema(self):
         rid = self.parameters['run_id']
         if self.parameters['meta']:
+            shared = {v: {'_default': 0, '_emit': True}
+                      for v in self.parameters['shared']}
+            if self.parameters['record']:
+                for v in shared:
+                    shared[v]['_updater'] = recording_updater(
+                        rid, 'shared:' + v)
             return {
                 'own': {'acc': {'_default': 0, '_emit': True}},
-                'shared': {v: {'_default': 0, '_emit': True,
-                               '_updater': recording_updater(rid, 'shared:' + v)}
-                           for v in self.parameters['shared']},
+                'shared': shared,
                 'layer': {'ssum': {'_default': 0, '_emit': True}},
             }
         return {
@@ -333,3 +340,505 @@ class DoneStep(Step):
             ctx.rec('step', self.name, ctx.now(), timestep, tick,
                     dict(states['done']), None)
         return {'done': {self.name: tick}}
+
+
+# ------------------------------------------------------------------ wiring kit
+
+class WireProcess(Process):
+    """Process with a given ports schema that records the states it is handed
+    and returns a fixed update.
+
+    parameters: run_id, schema (ports schema), update (returned by every
+    next_update), time_step, script: optional list of updates indexed by call
+    """
+    defaults = {'run_id': 0, 'schema': {}, 'update': {}, 'script': None,
+                'init': {}}
+
+    def __init__(self, parameters=None):
+        super().__init__(parameters)
+        self.n_calls = 0
+
+    def ports_schema(self):
+        return copy.deepcopy(self.parameters['schema'])
+
+    def initial_state(self, config=None):
+        return copy.deepcopy(self.parameters['init'])
+
+    def _rec(self, kind, timestep, states):
+        ctx = CTX.get(self.parameters['run_id'])
+        if ctx is not None:
+            whole = None
+            if ctx.snap and ctx.engine is not None:
+                whole = plain_state(ctx.engine.state.get_value())
+            ctx.rec(kind, self.name, ctx.now(), timestep, None,
+                    copy.deepcopy(states), whole)
+
+    def calculate_timestep(self, states):
+        self._rec('view.timestep', None, states)
+        return self.parameters['timestep']
+
+    def update_condition(self, timestep, states):
+        self._rec('view.condition', timestep, states)
+        return True
+
+    def next_update(self, timestep, states):
+        self._rec('invoke', timestep, states)
+        script = self.parameters['script']
+        self.n_calls += 1
+        if script is not None:
+            i = self.n_calls - 1
+            return copy.deepcopy(script[i]) if i < len(script) else {}
+        return copy.deepcopy(self.parameters['update'])
+
+
+# ------------------------------------------------------------------ structural kit
+
+SUB_SCHEMA = {'x': {'_default': 7, '_emit': True},
+              'y': {'_default': 9, '_emit': True}}
+OP_TOPOLOGY = {'g1': ('G1',), 'g2': ('G2',), 'g3': ('G1', 'perm', 'sub'),
+               'clock': ('clock',)}
+
+
+class AgentProc(Process):
+    """Resident process of an agent compartment: leaf ports x and y; adds
+    `inc` to x per update.  Records every invocation with its identity."""
+    defaults = {'run_id': 0, 'inc': 0, 'time_step': 1.0}
+
+    def ports_schema(self):
+        return {'x': dict(SUB_SCHEMA['x']), 'y': dict(SUB_SCHEMA['y'])}
+
+    def next_update(self, timestep, states):
+        ctx = CTX.get(self.parameters['run_id'])
+        if ctx is not None:
+            ctx.keep.append(self)
+            ctx.rec('invoke', self.name, ctx.now(), timestep, id(self),
+                    copy.deepcopy(states), None)
+        inc = self.parameters['inc']
+        return {'x': inc} if inc else {}
+
+
+class AgentStep(Step):
+    """Resident step (flow step or deriver): reads x, writes nothing."""
+    defaults = {'run_id': 0}
+
+    def ports_schema(self):
+        return {'x': dict(SUB_SCHEMA['x'])}
+
+    def next_update(self, timestep, states):
+        ctx = CTX.get(self.parameters['run_id'])
+        if ctx is not None:
+            ctx.keep.append(self)
+            ctx.rec('step', self.name, ctx.now(), timestep, id(self),
+                    copy.deepcopy(states), None)
+        return {}
+
+
+def resident_parts(res, run_id, parallel=False):
+    """-> (processes, steps, flow, topology) for a resident description
+    {'ts': float, 'inc': int, 'step': bool, 'deriver': bool}."""
+    params = {'name': 'grow', 'run_id': run_id, 'inc': res.get('inc', 0),
+              'time_step': res.get('ts', 1.0)}
+    if parallel or res.get('parallel'):
+        params['_parallel'] = True
+    processes = {'grow': AgentProc(params)}
+    topology = {'grow': {'x': ('x',), 'y': ('y',)}}
+    steps, flow = {}, {}
+    if res.get('step'):
+        steps['obs'] = AgentStep({'name': 'obs', 'run_id': run_id})
+        flow['obs'] = []
+        topology['obs'] = {'x': ('x',)}
+    if res.get('deriver'):
+        steps['der'] = AgentStep({'name': 'der', 'run_id': run_id})
+        topology['der'] = {'x': ('x',)}
+    return processes, steps, flow, topology
+
+
+def op_update(ops, run_id):
+    """Translate one tick's plain-data ops into a vivarium update of the
+    operator's ports."""
+    upd = {}
+
+    def port(name):
+        return upd.setdefault(name, {})
+    for op in ops:
+        kind = op['op']
+        if kind in ('add', 'add_existing'):
+            port(op['coll']).setdefault('_add', []).append(
+                {'key': op['key'], 'state': dict(op.get('state') or {})})
+        elif kind == 'delete':
+            form = op.get('form', 'key')
+            if form == 'key':
+                item = op['key']
+            elif form == 'tuple':
+                item = (op['key'],)
+            elif form == 'list':
+                item = [op['key']]
+            else:                       # deep: from g1 down to a g3 child
+                item = ('perm', 'sub', op['key'])
+            port(op['coll']).setdefault('_delete', []).append(item)
+        elif kind == 'set':
+            port(op['coll'])[op['key']] = dict(op['delta'])
+        elif kind == 'move':
+            target = op['target']
+            move = {'source': (op['key'],),
+                    'target': (target,) if isinstance(target, str)
+                    else tuple(target)}
+            if op.get('update'):
+                move['update'] = dict(op['update'])
+            port(op['coll']).setdefault('_move', []).append(move)
+        elif kind == 'generate':
+            gen = {'key': op['key'], 'processes': {}, 'topology': {},
+                   'initial_state': dict(op.get('state') or {})}
+            if op.get('resident'):
+                p, s, f, t = resident_parts(op['resident'], run_id)
+                gen.update(processes=p, topology=t)
+                if s:
+                    gen.update(steps=s, flow=f)
+            port(op['coll']).setdefault('_generate', []).append(gen)
+        elif kind == 'divide':
+            daughters = []
+            for key, st in zip(op['daughters'], op['states']):
+                d = {'key': key}
+                if st:
+                    d['initial_state'] = dict(st)
+                if op.get('explicit'):
+                    d['processes'], d['topology'] = {}, {}
+                    if op.get('resident'):
+                        p, s, f, t = resident_parts(op['resident'], run_id)
+                        d.update(processes=p, topology=t)
+                        if s:
+                            d.update(steps=s, flow=f)
+                daughters.append(d)
+            port(op['coll'])['_divide'] = {'mother': op['mother'],
+                                           'daughters': daughters}
+        else:
+            raise ValueError(kind)
+    return upd
+
+
+class OpProcess(Process):
+    """Operator: at its k-th call returns the k-th batch of the script."""
+    defaults = {'run_id': 0, 'script': [], 'time_step': 1.0}
+
+    def __init__(self, parameters=None):
+        super().__init__(parameters)
+        self.n_calls = 0
+
+    def ports_schema(self):
+        return {
+            'g1': {'*': copy.deepcopy(SUB_SCHEMA)},
+            'g2': {'*': copy.deepcopy(SUB_SCHEMA)},
+            'g3': {'*': copy.deepcopy(SUB_SCHEMA)},
+            'clock': {'tick': {'_default': 0, '_emit': True}},
+        }
+
+    def next_update(self, timestep, states):
+        ctx = CTX.get(self.parameters['run_id'])
+        script = self.parameters['script']
+        i = self.n_calls
+        self.n_calls += 1
+        ops = script[i] if i < len(script) else []
+        if ctx is not None:
+            ctx.rec('op', self.name, ctx.now(), i, ops)
+        upd = op_update(ops, self.parameters['run_id'])
+        upd.setdefault('clock', {})['tick'] = 1 if not self.is_step() else 0
+        return upd
+
+
+class OpStep(Step):
+    """Operator as a step: the k-th phase issues the k-th batch."""
+    defaults = {'run_id': 0, 'script': []}
+
+    def __init__(self, parameters=None):
+        super().__init__(parameters)
+        self.n_calls = 0
+
+    ports_schema = OpProcess.ports_schema
+
+    def next_update(self, timestep, states):
+        ctx = CTX.get(self.parameters['run_id'])
+        script = self.parameters['script']
+        i = self.n_calls
+        self.n_calls += 1
+        ops = script[i] if i < len(script) else []
+        if ctx is not None:
+            ctx.rec('op', self.name, ctx.now(), i, ops)
+        return op_update(ops, self.parameters['run_id'])
+
+
+# ------------------------------------------------------------------ division kit (C11)
+
+def div_user(value, state=None, config=None):
+    """User divider with topology and config: [m + other*k, m - other*k]."""
+    other = (state or {}).get('other', 0)
+    k = (config or {}).get('k', 1)
+    return [value + other * k, value - other * k]
+
+
+def cell_parts(run_id, cell_id, schema, mode, plan=()):
+    """-> (processes, steps, flow, topology) of one cell compartment."""
+    params = {'name': 'cellproc', 'run_id': run_id, 'schema': schema,
+              'agent_id': cell_id, 'mode': mode, 'plan': list(plan)}
+    processes = {'cellproc': CellProcess(params)}
+    topology = {'cellproc': {'st': ('st',), 'agents': ('..',)}}
+    steps, flow = {}, {}
+    if mode == 'self_step':
+        steps['cellstep'] = CellStep(dict(params, name='cellstep'))
+        flow['cellstep'] = []
+        topology['cellstep'] = {'st': ('st',), 'agents': ('..',)}
+    return processes, steps, flow, topology
+
+
+def daughters_for(run_id, mother, schema, mode, plan, overrides, explicit):
+    out = []
+    for i, suffix in enumerate('01'):
+        key = mother + suffix
+        d = {'key': key}
+        ov = (overrides or [None, None])[i]
+        if ov:
+            d['initial_state'] = {'st': copy.deepcopy(ov)}
+        if explicit:
+            p, s, f, t = cell_parts(run_id, key, schema, mode, plan)
+            d.update(processes=p, topology=t)
+            if s:
+                d.update(steps=s, flow=f)
+        out.append(d)
+    return out
+
+
+class _CellBase:
+    defaults = {'run_id': 0, 'schema': {}, 'agent_id': '0', 'mode': 'ext',
+                'plan': [], 'overrides': {}}
+
+    def ports_schema(self):
+        return {'st': build_schema(self.parameters['schema']),
+                'agents': {'*': {}}}
+
+    def _wants_division(self):
+        """The harness names the cell to divide in ctx.counters['divide_now']."""
+        ctx = CTX.get(self.parameters['run_id'])
+        if ctx is None:
+            return False
+        if ctx.counters.get('divide_now') == self.parameters['agent_id']:
+            ctx.counters['divide_now'] = None
+            return True
+        return False
+
+    def _divide_update(self):
+        me = self.parameters['agent_id']
+        ctx = CTX.get(self.parameters['run_id'])
+        ov = (ctx.counters.get('overrides') or {}).get(me) if ctx else None
+        return {'agents': {'_divide': {
+            'mother': me,
+            'daughters': daughters_for(
+                self.parameters['run_id'], me, self.parameters['schema'],
+                self.parameters['mode'], [], ov, True)}}}
+
+
+def build_schema(desc):
+    """Plain-data schema description -> ports schema.  Leaves are dicts with
+    the key '_default'; divider names 'user' map to the user function."""
+    from vivarium.library.units import units
+    import numpy as np
+    out = {}
+    for k, v in desc.items():
+        if k == '_divider':
+            out[k] = v
+        elif isinstance(v, dict) and '_default' not in v:
+            out[k] = build_schema(v)
+        else:
+            leaf = dict(v)
+            if leaf.get('_unit'):
+                leaf['_default'] = leaf['_default'] * units(leaf.pop('_unit')).units
+            if leaf.get('_array'):
+                leaf.pop('_array')
+                leaf['_default'] = np.array(leaf['_default'])
+            if leaf.get('_inf'):
+                leaf.pop('_inf')
+                leaf['_default'] = float('inf')
+            d = leaf.get('_divider')
+            if d == 'user':
+                leaf['_divider'] = {'divider': div_user,
+                                    'topology': {'other': ('..', 'other')},
+                                    'config': {'k': leaf.pop('_k', 1)}}
+            elif d == 'set_value':
+                leaf['_divider'] = {'divider': 'set_value',
+                                    'config': {'value': leaf.pop('_sv')}}
+            out[k] = leaf
+    return out
+
+
+class CellProcess(_CellBase, Process):
+    """Resident of a cell: declares the cell's variables; in mode
+    'self_process' it divides its own cell when the harness says so; when the
+    variable st/active is 1 and the harness has switched acting on, it updates
+    its cell's variables."""
+
+    def __init__(self, parameters=None):
+        Process.__init__(self, parameters)
+
+    def next_update(self, timestep, states):
+        ctx = CTX.get(self.parameters['run_id'])
+        if ctx is not None:
+            ctx.keep.append(self)
+            ctx.rec('invoke', 'cellproc', ctx.now(), timestep, id(self),
+                    self.parameters['agent_id'], None)
+        if self.parameters['mode'] == 'self_process' and \
+                self._wants_division():
+            return self._divide_update()
+        if ctx is not None and ctx.counters.get('acting') and \
+                states['st'].get('active') == 1:
+            return {'st': copy.deepcopy(ctx.counters['act_update'])}
+        return {}
+
+
+class CellStep(_CellBase, Step):
+    def __init__(self, parameters=None):
+        Step.__init__(self, parameters)
+
+    def next_update(self, timestep, states):
+        if self._wants_division():
+            return self._divide_update()
+        return {}
+
+
+class DivProcess(Process):
+    """External divider at the root: divides the cell the harness names, with
+    explicit daughters or by copying the mother."""
+    defaults = {'run_id': 0, 'schema': {}, 'mode': 'ext_explicit'}
+
+    def ports_schema(self):
+        return {'agents': {'*': {}}, 'clock': {'tick': {'_default': 0}}}
+
+    def next_update(self, timestep, states):
+        ctx = CTX.get(self.parameters['run_id'])
+        upd = {'clock': {'tick': 1}}
+        mode = self.parameters['mode']
+        if ctx is not None and mode.startswith('ext') and \
+                ctx.counters.get('divide_now'):
+            mother = ctx.counters['divide_now']
+            ctx.counters['divide_now'] = None
+            ov = (ctx.counters.get('overrides') or {}).get(mother)
+            upd['agents'] = {'_divide': {
+                'mother': mother,
+                'daughters': daughters_for(
+                    self.parameters['run_id'], mother,
+                    self.parameters['schema'], 'ext', [], ov,
+                    mode == 'ext_explicit')}}
+        return upd
+
+
+# ------------------------------------------------------------------ emit kit (C12)
+
+from vivarium.core.registry import Serializer as _Serializer
+
+
+class TagSerializer(_Serializer):
+    python_type = None
+
+    def serialize(self, data):
+        return '!tag[%r]' % (data,)
+
+
+TAG_SERIALIZER = TagSerializer()
+try:
+    from vivarium.core.registry import serializer_registry as _sreg
+    if _sreg.access('vv-tag') is None:
+        _sreg.registry['vv-tag'] = TAG_SERIALIZER   # by name only: not listed
+        _sreg.registry['vv-tag2'] = TagSerializer()
+except Exception:
+    pass
+
+
+class EmitProcess(Process):
+    """Declares leaves described by plain data and increments them.
+
+    parameters: run_id, leaves: [{'path': [...], 'emit': bool, 'kind':
+    'int'|'q'|'ser', 'unit': str, 'upd_unit': str}], time_step
+    """
+    defaults = {'run_id': 0, 'leaves': []}
+
+    def ports_schema(self):
+        from vivarium.library.units import units
+        rid = self.parameters['run_id']
+        schema = {}
+        for leaf in self.parameters['leaves']:
+            decl = {'_emit': leaf['emit']}
+            if leaf['kind'] == 'q':
+                decl['_default'] = 0 * units(leaf['unit']).units
+            else:
+                decl['_default'] = 0
+                decl['_updater'] = recording_updater(
+                    rid, 'leaf:' + '/'.join(leaf['path']))
+            if leaf['kind'] == 'ser':
+                decl['_serializer'] = 'vv-tag'
+            cur = schema
+            for seg in leaf['path'][:-1]:
+                cur = cur.setdefault(seg, {})
+            cur[leaf['path'][-1]] = decl
+        return {'data': schema,
+                'clock': {'tick': {'_default': 0, '_emit': False,
+                                   '_updater': recording_updater(rid, 'tick')}}}
+
+    def next_update(self, timestep, states):
+        from vivarium.library.units import units
+        upd = {}
+        for leaf in self.parameters['leaves']:
+            if leaf['kind'] == 'q':
+                v = 1 * units(leaf.get('upd_unit') or leaf['unit']).units
+            else:
+                v = 1
+            cur = upd
+            for seg in leaf['path'][:-1]:
+                cur = cur.setdefault(seg, {})
+            cur[leaf['path'][-1]] = v
+        return {'data': upd, 'clock': {'tick': 1}}
+
+
+def fill_initial_snapshots(ctx, engine):
+    """Emits made by the Engine constructor happen before the harness holds the
+    engine; nothing runs between them and the constructor's return, so the
+    state right after construction is the state they saw."""
+    snap = plain_state(engine.state.get_value())
+    for i, ev in enumerate(ctx.log):
+        if ev[0] == 'emit' and ev[4] is None:
+            ctx.log[i] = ev[:4] + (copy.deepcopy(snap),)
+
+
+# ------------------------------------------------------------------ composer kit (C16)
+
+from vivarium.core.composer import Composer as _Composer
+
+
+def make_part(desc, run_id):
+    """-> (processes, steps, flow, topology) from plain data
+    {'procs': [{'name','ts','salt'}], 'steps': [{'name','deps','salt'}]}"""
+    processes, steps, flow, topology = {}, {}, {}, {}
+    for p in desc.get('procs', []):
+        processes[p['name']] = RecProcess({
+            'name': p['name'], 'run_id': run_id, 'ts': [p['ts']],
+            'meta': True, 'salt': p['salt']})
+        topology[p['name']] = {'own': ('own', p['name']), 'shared': ('shared',)}
+    for s in desc.get('steps', []):
+        steps[s['name']] = RecStep({'name': s['name'], 'run_id': run_id,
+                                    'meta': True, 'salt': s['salt']})
+        flow[s['name']] = [(d,) for d in s['deps']]
+        topology[s['name']] = {'own': ('own', s['name']),
+                               'shared': ('shared',), 'layer': ('layer',)}
+    return processes, steps, flow, topology
+
+
+class SpecComposer(_Composer):
+    defaults = {'desc': {}, 'run_id': 0}
+
+    def generate_processes(self, config):
+        return make_part(config['desc'], config['run_id'])[0]
+
+    def generate_steps(self, config):
+        return make_part(config['desc'], config['run_id'])[1]
+
+    def generate_flow(self, config):
+        return make_part(config['desc'], config['run_id'])[2]
+
+    def generate_topology(self, config):
+        return make_part(config['desc'], config['run_id'])[3]
